@@ -370,6 +370,10 @@ class ProviderDispatcher(BaseProvider):
                     # value, it is None. A CIMProperty object is used because
                     # the CIM type cannot be inferred from a value of None.
                     cl_prop = creation_class.properties[pn]
+                    if 'key' in cl_prop.qualifiers:
+                        # A key property cannot be modified, so it keeps
+                        # its value and does not get the class default
+                        continue
                     modified_instance[pn] = CIMProperty(
                         cl_prop.name, cl_prop.value, type=cl_prop.type,
                         reference_class=cl_prop.reference_class,
